@@ -175,6 +175,12 @@ def summarise(branch, stmts, in_loop=None, env=None):
             if ast.unparse(t) == "self.inline_close" and isinstance(v, ast.Constant) and v.value is None:
                 ev.append(("reset-close", s.lineno))
                 continue
+            if isinstance(t, ast.Name) and isinstance(v, (ast.List, ast.Tuple)) and v.elts and all(isinstance(c, ast.Call) and isinstance(c.func, ast.Attribute) and
+                                                                                                   isinstance(c.func.value, ast.Name) and c.func.value.id == "self" for c in v.elts):
+                # operands collected into a list before the builder is called (batching)
+                if not hasattr(branch, "batched"):
+                    branch.batched = []
+                branch.batched.append((s.lineno, ast.unparse(s)[:60]))
             branch.unknown.append((s.lineno, "assignment %s" % ast.unparse(s)[:60]))
             continue
         if isinstance(s, ast.If):
